@@ -251,10 +251,15 @@ class G(object):
         if o['labels'] and r.random() < 0.5:
             node['label'] = self.newlabel('sec')
         if level < 4 and self.nsec < o['maxsec']:
+            have_direct = False
             for _ in range(r.choice([0, 0, 1, 2, 3])):
                 if self.nsec >= o['maxsec']:
                     break
-                sub = level + 1 if r.random() < 0.9 or level >= 3 else level + 2
+                # a unit that skips a level can only come before the first unit of the next level
+                # (after it, LaTeX nests the deeper unit inside that sibling)
+                sub = level + 1 if (have_direct or r.random() < 0.9 or level >= 3) else level + 2
+                if sub == level + 1:
+                    have_direct = True
                 node['subs'].append(self.section(sub, depth))
         return node
 
